@@ -680,6 +680,128 @@ Lemma delivery_example : exists s, run true init
 Proof. eexists. split; [vm_compute; reflexivity|]. cbn. repeat split; auto. right. right. exists 0. reflexivity. Qed.
 
 (* ------------------------------------------------------------------------------------------------ *)
+(* a request is in at most one place: a queue, the hands of one send goroutine, or delivered to one peer *)
+Fixpoint cnt (m : nat) (l : list nat) : nat :=
+  match l with [] => 0 | x :: r => (if Nat.eqb x m then 1 else 0) + cnt m r end.
+Lemma cnt_app m a b : cnt m (a ++ b) = cnt m a + cnt m b.
+Proof. induction a as [|x r IH]; cbn; auto. rewrite IH. lia. Qed.
+Lemma cnt_In m l : In m l -> 1 <= cnt m l.
+Proof. induction l as [|x r IH]; cbn; [tauto|]. intros [->|H]; [rewrite Nat.eqb_refl; lia|]. specialize (IH H). lia. Qed.
+
+Definition hcnt (m : nat) (p : spc) : nat :=
+  match holds p with Some x => if Nat.eqb x m then 1 else 0 | None => 0 end.
+Definition gocc (m : nat) (x : gen) : nat := hcnt m (sp x) + cnt m (got x).
+Fixpoint sumo (m : nat) (f : nat -> gen) (n : nat) : nat :=
+  match n with 0 => 0 | S k => sumo m f k + gocc m (f k) end.
+Definition occ (s : st) (m : nat) : nat := cnt m (sendQ s) + cnt m (failQ s) + sumo m (gens s) (ngen s).
+
+Lemma sumo_ext m f f' n : (forall k, k < n -> gocc m (f' k) = gocc m (f k)) -> sumo m f' n = sumo m f n.
+Proof. induction n as [|n IH]; cbn; intros H; auto. rewrite IH, H; auto. Qed.
+Lemma sumo_change m f f' g n : g < n -> (forall k, k <> g -> f' k = f k) -> sumo m f' n + gocc m (f g) = sumo m f n + gocc m (f' g).
+Proof.
+  induction n as [|n IH]; intros L H; [lia|]. cbn. destruct (Nat.eq_dec g n) as [->|N].
+  - rewrite (sumo_ext m f f' n); [lia|]. intros k Hk. rewrite H; auto. lia.
+  - rewrite (H n) by auto. assert (g < n) by lia. specialize (IH H0 H). lia.
+Qed.
+Lemma sumo_ge m f g n : g < n -> gocc m (f g) <= sumo m f n.
+Proof. induction n as [|n IH]; intros L; [lia|]. cbn. destruct (Nat.eq_dec g n) as [->|N]; [lia|]. assert (g < n) by lia. specialize (IH H). lia. Qed.
+Lemma sumo_ge2 m f g g' n : g < n -> g' < n -> g <> g' -> gocc m (f g) + gocc m (f g') <= sumo m f n.
+Proof.
+  induction n as [|n IH]; intros L L' N; [lia|]. cbn.
+  destruct (Nat.eq_dec g n) as [->|N1].
+  - assert (g' < n) by lia. pose proof (sumo_ge m f g' n H). lia.
+  - destruct (Nat.eq_dec g' n) as [->|N2].
+    + assert (g < n) by lia. pose proof (sumo_ge m f g n H). lia.
+    + assert (g < n) by lia. assert (g' < n) by lia. specialize (IH H H0 N). lia.
+Qed.
+
+Lemma upd_same f g v : upd f g v g = v.
+Proof. unfold upd. now rewrite Nat.eqb_refl. Qed.
+Lemma upd_other f g v x : x <> g -> upd f g v x = f x.
+Proof. unfold upd. intros H. apply Nat.eqb_neq in H. now rewrite H. Qed.
+
+Definition is_enq (l : label) (m : nat) : bool := match l with LEnq x => Nat.eqb x m | _ => false end.
+
+Lemma occ_step s l s' m : Inv1 s -> Inv0 s -> step true s l = Some s' ->
+  occ s' m <= occ s m + (if is_enq l m then 1 else 0).
+Proof.
+  intros (HA & _) HN H. destruct l; cbn [step] in H.
+  all: dstep H.
+  all: try solve [unfold occ; cbn; lia].
+  all: try match goal with
+       | E : sp (gens ?s ?g) = _ |- _ => assert (L : g < ngen s) by (apply lt_ngen_of_sp; [auto|congruence])
+       | E : rp (gens ?s ?g) = RSignal |- _ => assert (L : g < ngen s) by (destruct (Nat.lt_ge_cases g (ngen s)); auto; rewrite (HN g) in E by lia; discriminate E)
+       | E : (?g <? ngen ?s) && _ = true |- _ => assert (L : g < ngen s) by (apply andb_prop in E; destruct E as [E _]; try (apply andb_prop in E; destruct E as [E _]); now apply Nat.ltb_lt in E)
+       | E : (?g <? ngen ?s) = true |- _ => assert (L : g < ngen s) by (now apply Nat.ltb_lt in E)
+       | E : cur ?s = Some ?g |- _ => assert (L : g < ngen s) by (rewrite E in HA; tauto)
+       end.
+  all: unfold occ, do_close, w_sp, w_gen, w_gens; cbn [gens ngen sendQ failQ w_closedF w_failQ w_sendQ w_atts w_log w_hist is_enq].
+  all: try match goal with L : ?g < ?n |- _ + _ + sumo ?m ?f' ?n <= _ + _ + sumo ?m ?f ?n + _ =>
+         let X := fresh "X" in assert (X := sumo_change m f f' g n L);
+         let Y := fresh "Y" in assert (Y : forall k, k <> g -> f' k = f k) by (intros k Hk; unfold upd; apply Nat.eqb_neq in Hk; cbn; rewrite ?Hk; reflexivity);
+         specialize (X Y); clear Y; set (A := sumo m f' n) in *; set (B := sumo m f n) in * end.
+  all: try (unfold upd in X; cbn in X; rewrite ?Nat.eqb_refl in X; cbn in X; unfold gocc, hcnt in X; cbn in X).
+  all: repeat match goal with E : sp (gens _ _) = _ |- _ => rewrite E in *; clear E | E : failQ _ = _ |- _ => rewrite E in *; clear E | E : sendQ _ = _ |- _ => rewrite E in *; clear E end.
+  all: cbn in *; rewrite ?cnt_app in *; cbn in *.
+  all: repeat match goal with |- context [Nat.eqb ?a ?b] => destruct (Nat.eqb a b) | H : context [Nat.eqb ?a ?b] |- _ => destruct (Nat.eqb a b) end.
+  all: try lia.
+  all: try (rewrite (sumo_ext m (gens s) (fun x => add_late (gens s x) _) (ngen s)); [lia|intros k Hk; unfold gocc; now rewrite al_sp, al_got]).
+  - rewrite (sumo_ext m (gens s) (upd (gens s) (ngen s) gen0) (ngen s)).
+    + rewrite upd_same. cbn. lia.
+    + intros k Hk. rewrite upd_other by lia. reflexivity.
+  - rewrite (sumo_ext m (gens s) (upd (gens s) n (set_dead (gens s n))) (ngen s)); [lia|].
+    intros k Hk. unfold upd. destruct (Nat.eqb_spec k n); subst; reflexivity.
+  - rewrite (sumo_ext m (gens s) (upd (gens s) g (set_peerc (gens s g))) (ngen s)); [lia|].
+    intros k Hk. unfold upd. destruct (Nat.eqb_spec k g); subst; reflexivity.
+Qed.
+
+Definition InvU (s : st) : Prop := forall m, occ s m <= 1 /\ (~ In m (hist s) -> occ s m = 0).
+
+Lemma InvU_step s l s' : Inv1 s -> Inv0 s -> InvU s -> step true s l = Some s' -> InvU s'.
+Proof.
+  intros I1 I0 U H m. destruct (U m) as [U1 U2]. pose proof (occ_step s l s' m I1 I0 H) as O.
+  assert (HM : forall x, In x (hist s) -> In x (hist s')).
+  { intros x. destruct l; cbn [step] in H; dstep H; cbn; auto. rewrite in_app_iff. auto. }
+  destruct (is_enq l m) eqn:E.
+  - destruct l; cbn in E; try discriminate. apply Nat.eqb_eq in E. subst m0.
+    cbn [step] in H. destruct (memn m (lenq s) && negb (memn m (hist s))) eqn:G; [|discriminate]. injection H as <-.
+    apply andb_prop in G. destruct G as [_ G]. apply negb_true_iff in G.
+    assert (NI : ~ In m (hist s)). { intros X. apply memn_In in X. congruence. }
+    specialize (U2 NI). split; [lia|]. cbn. rewrite in_app_iff. intros X. exfalso. apply X. right. now left.
+  - split; [lia|]. intros NI. assert (~ In m (hist s)) by auto. specialize (U2 H0). lia.
+Qed.
+
+
+Lemma InvU_init : InvU init.
+Proof. intros m. unfold occ, init; cbn. split; auto. Qed.
+
+Lemma InvU_run ls : forall s s', Inv s -> InvU s -> run true s ls = Some s' -> InvU s'.
+Proof.
+  induction ls as [|l r IH]; cbn [run]; intros s s' I U R. { now injection R as <-. }
+  destruct (step true s l) as [s1|] eqn:E; [|discriminate].
+  eapply (IH s1); eauto. { eapply Inv_step; eauto. } destruct I as (I1 & _ & I0). eapply InvU_step; eauto.
+Qed.
+
+(* AT MOST ONCE: over all connections together a request reaches the peer at most once, and a request that has
+   reached a peer is nowhere else in the client (no queue, no send goroutine holds it) *)
+Theorem at_most_once ls s m g g' : run true init ls = Some s -> g < ngen s -> g' < ngen s ->
+  In m (got (gens s g)) -> In m (got (gens s g')) ->
+  g = g' /\ cnt m (got (gens s g)) = 1 /\ ~ In m (sendQ s) /\ ~ In m (failQ s) /\ (forall h, h < ngen s -> holds (sp (gens s h)) <> Some m).
+Proof.
+  intros R L L' G G'. destruct (InvU_run ls init s Inv_init InvU_init R m) as [U _]. unfold occ in U.
+  pose proof (cnt_In _ _ G) as C. pose proof (cnt_In _ _ G') as C'.
+  assert (E : g = g').
+  { destruct (Nat.eq_dec g g'); auto. pose proof (sumo_ge2 m (gens s) g g' (ngen s) L L' n). unfold gocc in H. lia. }
+  subst g'. pose proof (sumo_ge m (gens s) g (ngen s) L) as S1. unfold gocc in S1.
+  split; [auto|]. split; [lia|]. split; [|split].
+  - intros X. apply cnt_In in X. lia.
+  - intros X. apply cnt_In in X. lia.
+  - intros h Lh X. destruct (Nat.eq_dec h g) as [->|N].
+    + unfold hcnt in S1. rewrite X, Nat.eqb_refl in S1. lia.
+    + pose proof (sumo_ge2 m (gens s) h g (ngen s) Lh L N) as S2. unfold gocc, hcnt in S2. rewrite X, Nat.eqb_refl in S2. lia.
+Qed.
+
+(* ------------------------------------------------------------------------------------------------ *)
 (* the specification machine accepts the log of every run in which the client itself does not give up a
    connection (no TarsClient.Close, no idle close: the harness's scripts contain neither) *)
 Lemma memp_In g m l : memp g m l = true <-> In (g, m) l.
@@ -717,6 +839,30 @@ Proof.
   all: try (match goal with E : memn ?m _ && _ = true, H : In _ (_ ++ [?m]) |- _ => apply andb_prop in E; destruct E as [E _]; apply memn_In in E; apply in_app_or in H; destruct H as [H|[H|[]]]; subst; auto end).
   all: try (rewrite in_app_iff; auto).
   apply Nat.ltb_lt in Heqb. lia.
+Qed.
+
+Lemma amo_state s m g g' : InvU s -> g < ngen s -> g' < ngen s -> In m (got (gens s g)) -> In m (got (gens s g')) -> g = g'.
+Proof.
+  intros U L L' G G'. destruct (U m) as [U1 _]. unfold occ in U1.
+  pose proof (cnt_In _ _ G) as C. pose proof (cnt_In _ _ G') as C'.
+  destruct (Nat.eq_dec g g'); auto. pose proof (sumo_ge2 m (gens s) g g' (ngen s) L L' n). unfold gocc in H. lia.
+Qed.
+
+(* every arrival the harness has logged is an arrival *)
+Definition Inv5 (s : st) : Prop := forall g id, In (g, id) (lsrv s) -> g < ngen s /\ In id (got (gens s g)).
+
+Lemma Inv5_step s l s' : Inv0 s -> Inv5 s -> step true s l = Some s' -> Inv5 s'.
+Proof.
+  intros HN I5 H. destruct l; cbn [step] in H.
+  all: dstep H.
+  all: unfold Inv5, do_close, w_sp, w_gen, w_gens in *; cbn; intros g0 id0 X.
+  all: try (apply in_app_or in X; destruct X as [X|[X|[]]]; [|injection X as <- <-]).
+  all: try (destruct (I5 g0 id0 X) as [A B]).
+  all: unfold upd; cbn; rewrite ?al_got.
+  all: repeat match goal with |- context [Nat.eqb ?a ?b] => destruct (Nat.eqb_spec a b); subst; cbn end.
+  all: try (split; [lia|]); rewrite ?in_app_iff; auto; try lia.
+  apply andb_prop in Heqb. destruct Heqb as [Heqb _]. apply andb_prop in Heqb. destruct Heqb as [A B].
+  apply Nat.ltb_lt in A. apply memn_In in B. auto.
 Qed.
 
 Definition Sim (s : st) (k : chk) : Prop :=
@@ -759,10 +905,10 @@ Qed.
 Lemma chk_run_app es : forall k e, chk_run k (es ++ [e]) = match chk_run k es with Some k' => chk_step k' e | None => None end.
 Proof. induction es as [|x r IH]; cbn; intros. - now destruct (chk_step k e). - destruct (chk_step k x); auto. Qed.
 
-Lemma Sim_log s l s' k : InvX s -> Inv4 s -> Sim s k -> logs l = true -> step true s l = Some s' ->
+Lemma Sim_log s l s' k : InvX s -> Inv4 s -> InvU s -> Inv5 s -> Sim s k -> logs l = true -> step true s l = Some s' ->
   exists e k', log s' = log s ++ [e] /\ chk_step k e = Some k' /\ Sim s' k'.
 Proof.
-  intros ((I1 & I2 & HN) & I3) (J1 & J2 & J3 & J4 & J5) (S1 & S2 & S3 & S4 & S5 & S6 & S7 & S8) LG H.
+  intros ((I1 & I2 & HN) & I3) (J1 & J2 & J3 & J4 & J5) IU I5 (S1 & S2 & S3 & S4 & S5 & S6 & S7 & S8) LG H.
   destruct l; try discriminate LG; cbn [step] in H.
   all: dstep H.
   all: eexists; eexists; split; [reflexivity|].
@@ -804,9 +950,14 @@ Proof.
     unfold Sim; cbn. split; [exact S1|]. split; [exact S2|]. split; [exact S3|]. split; [exact S4|].
     split; [|auto]. intros g0. destruct (memn g (k_obs k)); [apply S5|]. rewrite in_app_iff. intros [X|[<-|[]]]; auto.
   - (* LLogSrv *)
-    apply andb_prop in Heqb. destruct Heqb as [_ G]. apply memn_In in G.
+    apply andb_prop in Heqb. destruct Heqb as [Heqb NL]. apply andb_prop in Heqb. destruct Heqb as [LT G].
+    apply memn_In in G. apply Nat.ltb_lt in LT. apply negb_true_iff in NL.
     assert (E1 : memp g id (k_writes k) = true). { apply memp_In. auto. }
-    cbn [chk_step]. rewrite E1. split; [reflexivity|].
+    assert (E2 : mem2 id (k_srvs k) = false).
+    { destruct (mem2 id (k_srvs k)) eqn:E; auto. apply mem2_In in E. destruct E as (g' & E). rewrite S4 in E.
+      destruct (I5 g' id E) as [L' G']. assert (g' = g) by (eapply amo_state; eauto). subst g'.
+      apply memp_In in E. congruence. }
+    cbn [chk_step]. rewrite E1, E2. split; [reflexivity|].
     unfold Sim; cbn. split; [exact S1|]. split; [exact S2|]. split; [exact S3|]. split; [rewrite S4; reflexivity|]. auto.
   - (* LLogReply *)
     cbn [chk_step]. rewrite S4, Heqb. split; [reflexivity|].
@@ -828,17 +979,22 @@ Proof. unfold Inv4, init; cbn. repeat split; intros; try discriminate; try contr
 Lemma Sim_init : Sim init chk0.
 Proof. unfold Sim, init, chk0; cbn. repeat split; intros; try discriminate; try contradiction; auto. Qed.
 
-Lemma spec_sim ls : forall s k s', InvX s -> Inv4 s -> Sim s k -> chk_run chk0 (log s) = Some k ->
+Lemma Inv5_init : Inv5 init.
+Proof. intros g id []. Qed.
+
+Lemma spec_sim ls : forall s k s', InvX s -> Inv4 s -> InvU s -> Inv5 s -> Sim s k -> chk_run chk0 (log s) = Some k ->
   Forall (fun l => client_close l = false) ls -> run true s ls = Some s' ->
   exists k', chk_run chk0 (log s') = Some k' /\ Sim s' k'.
 Proof.
-  induction ls as [|l r IH]; cbn [run]; intros s k s' I J S K F R.
+  induction ls as [|l r IH]; cbn [run]; intros s k s' I J U V S K F R.
   - injection R as <-. eauto.
   - destruct (step true s l) as [s1|] eqn:E; [|discriminate]. inversion F as [|? ? Fl Fr]; subst.
     assert (I' : InvX s1) by (eapply InvX_step; eauto).
     assert (J' : Inv4 s1). { destruct I as ((_ & _ & HN) & I3). eapply Inv4_step; eauto. }
+    assert (U' : InvU s1). { destruct I as ((I1 & _ & HN) & _). eapply InvU_step; eauto. }
+    assert (V' : Inv5 s1). { destruct I as ((_ & _ & HN) & _). eapply Inv5_step; eauto. }
     destruct (logs l) eqn:LG.
-    + destruct (Sim_log s l s1 k I J S LG E) as (e & k1 & L1 & C1 & S1).
+    + destruct (Sim_log s l s1 k I J U V S LG E) as (e & k1 & L1 & C1 & S1).
       eapply (IH s1 k1); eauto. rewrite L1, chk_run_app, K. exact C1.
     + destruct I as ((_ & _ & HN) & _). destruct (Sim_silent s l s1 k HN S LG E) as (L1 & S1).
       eapply (IH s1 k); eauto. now rewrite L1.
@@ -848,7 +1004,7 @@ Qed.
 Theorem spec_machine_sound ls s : run true init ls = Some s -> Forall (fun l => client_close l = false) ls ->
   c11_accepts (log s) = true.
 Proof.
-  intros R F. destruct (spec_sim ls init chk0 s InvX_init Inv4_init Sim_init eq_refl F R) as (k & K & _).
+  intros R F. destruct (spec_sim ls init chk0 s InvX_init Inv4_init InvU_init Inv5_init Sim_init eq_refl F R) as (k & K & _).
   unfold c11_accepts. now rewrite K.
 Qed.
 
